@@ -27,9 +27,11 @@ TIERS = {
     "quick": {"shards": 4, "cases": 1500, "timeout": 300},
     "thorough": {"shards": 16, "cases": 12000, "timeout": 3000},
 }
-FLOORS = {"quick": {"distinct_nontrivial": 1500, "ll1_grammars": 500, "nonambiguous_pairs_judged": 10000,
+FLOORS = {"quick": {"sequence_template_decisions": 900,
+                    "distinct_nontrivial": 1500, "ll1_grammars": 500, "nonambiguous_pairs_judged": 10000,
                     "ll1_trees_compared": 2000, "members": 3000, "non_members": 3000},
-          "thorough": {"distinct_nontrivial": 30000, "ll1_grammars": 15000,
+          "thorough": {"sequence_template_decisions": 3600,
+                       "distinct_nontrivial": 30000, "ll1_grammars": 15000,
                        "nonambiguous_pairs_judged": 300000, "ll1_trees_compared": 60000,
                        "members": 100000, "non_members": 100000}}
 LEVEL_TEXT = ("Runtime exploration with independent reference algorithms: for each generated grammar the "
